@@ -29,7 +29,7 @@ class World:
         self.flavour = flavour
         self.mk = gen.make_data_factory(flavour)
         self.tree, self.nodes = gen.build(spec, flavour=flavour, mk=self.mk)
-        calc = (lambda d: gen.keyed_calc_id(None, d)) if flavour == "keyed" else hash
+        calc = (lambda d: gen.keyed_calc_id(None, d)) if flavour in ("keyed", "keyedsub") else hash
         self.calc = calc
         self.mtree, self.mnodes = MTree.from_spec(spec, [self.mk(r[1]) for r in spec.nodes], calc=calc)
         self.uid = {id(n): m.uid for n, m in zip(self.nodes, self.mnodes)}
